@@ -23,6 +23,9 @@ type GunConfig struct {
 	SideLog string        `config:"sidelog" validate:"required"`
 	Work    time.Duration `config:"work"` // time spent in a shot before the report
 	Tag     string        `config:"tag"`
+	// FailAfter > 0: the shot that draws this id panics instead of reporting (a mid-run gun
+	// fault: the instance fails, the pool fails, Engine.Run returns an error).
+	FailAfter uint64 `config:"failafter"`
 }
 
 var (
@@ -58,6 +61,9 @@ func (g *Gun) Shoot(core.Ammo) {
 		time.Sleep(g.conf.Work)
 	}
 	id := atomic.AddUint64(&nextID, 1)
+	if g.conf.FailAfter > 0 && id == g.conf.FailAfter {
+		panic("verif-gun: injected fault")
+	}
 	s := netsample.Acquire(g.conf.Tag)
 	s.SetID(id)
 	s.SetUserDuration(time.Duration(id%1000) * time.Microsecond)
